@@ -4,3 +4,4 @@
 
 pub mod control_points;
 pub mod utf8;
+pub mod curve;
